@@ -66,7 +66,14 @@ fn gen_case(rng: &mut Rng, big_ok: bool) -> Vec<String> {
                 let mode = match rng.below(100) {
                     0..=44 => "ow".to_string(),
                     45..=64 => "cr".to_string(),
-                    _ => format!("up:{}{}", if rng.chance(3, 4) { format!("t{}", ntok.saturating_sub(1 + rng.below(2))) } else { tokref(rng, ntok) }, if rng.chance(1, 8) { ":v" } else { "" }),
+                    _ => {
+                        let t = if rng.chance(3, 4) { format!("t{}", ntok.saturating_sub(1 + rng.below(2))) } else { tokref(rng, ntok) };
+                        // a caller-supplied *version* only together with a token nobody holds: both stores refuse;
+                        // with the right token the wrapper refuses (no versions, documented) where InMemory ignores
+                        // the version — excluded shape of `wrapper_refines_ref` (`KnownDivergence`), corpus `versions-noref`
+                        let v = if t.starts_with('x') && rng.chance(1, 2) { ":v" } else { "" };
+                        format!("up:{t}{v}")
+                    }
                 };
                 ntok += 1;
                 format!("put {k} {mode} {} {}", size(rng), rng.below(50))
